@@ -174,6 +174,7 @@ def run_program(ctx, rng):
                 if id(v) in born:
                     born[id(v)] = (v, snapshot(v))
         if not o.ok:
+            prog.failed(operands, info)
             continue
         res = o.value
         vals = res if isinstance(res, (tuple, list)) else [res]
